@@ -116,6 +116,10 @@ type Exec struct {
 
 var cur *Exec
 
+// watchdogTimeout bounds one execution in real time; it only fires when a managed
+// thread blocks on something vrt does not model. It is a harness error, never a verdict.
+var watchdogTimeout = 20 * time.Second
+
 // Active reports whether a controlled execution is in progress.
 func Active() bool { return cur != nil }
 
@@ -151,7 +155,7 @@ func Run(opt Options, body func(), atQuiescence func(e *Exec)) *Result {
 	t0.started = true
 	go e.threadMain(t0, body)
 
-	watchdog := time.NewTimer(60 * time.Second)
+	watchdog := time.NewTimer(watchdogTimeout)
 	defer watchdog.Stop()
 	deadline := false
 	select {
